@@ -107,12 +107,13 @@ class _Collisions:
 @loop_invariant(NS_MOD + "_ensure_no_fixed_port_id_collisions", loop=0)
 def _inv_outer(s):
     return {"no-collision-so-far": FORALL_IDX(
-        s.types, lambda p, a: FORALL_IDX(s.types, lambda q, b: NOT(collide(a, b)), name="q"), hi=s.i, name="p")}
+        s.seq, lambda p, a: FORALL_IDX(s.seq, lambda q, b: NOT(collide(a, b)), name="q"), hi=s.i, name="p")}
 
 
 @loop_invariant(NS_MOD + "_ensure_no_fixed_port_id_collisions", loop=1)
 def _inv_inner(s):
-    return {"no-collision-in-row": FORALL_IDX(s.types, lambda q, b: NOT(collide(s.a, b)), hi=s.i, name="q")}
+    a = s.enclosing[-1]  # the element of the outer loop, whatever the code calls it
+    return {"no-collision-in-row": FORALL_IDX(s.seq, lambda q, b: NOT(collide(a, b)), hi=s.i, name="q")}
 
 
 # ------------------------------------------------------------------------------------------------ pairwise
